@@ -577,12 +577,18 @@ pub fn sim_case(p: SimParams) -> impl Strategy<Value = SimCase> {
         prop::collection::vec(any::<u8>(), p.max_n),
         prop::collection::vec(any::<u8>(), p.max_n),
         prop::collection::vec(any::<u8>(), 0..=p.max_notices),
-        (any::<u8>(), any::<u8>()),
+        (any::<u8>(), any::<u8>(), any::<u8>()),
         prop::collection::vec(any::<u16>(), 0..=p.sched_len),
     )
         .prop_map(
-            move |(raw, rootsel, watch_b, upto, fail, notices, (term_b, withhold_b), sched)| {
-                let graph = build_graph(&raw);
+            move |(raw, rootsel, watch_b, upto, fail, notices, (term_b, withhold_b, template_b), sched)| {
+                // one case in five starts from a hand-picked shape that random generation reaches
+                // rarely (extra random targets are appended after it)
+                let mut graph = match template_graph(template_b, &raw) {
+                    Some(g) => g,
+                    None => build_graph(&raw),
+                };
+                graph.targets.truncate(p.max_n);
                 let n = graph.n();
                 let roots = pick_roots(&graph, &rootsel);
                 let watch = match p.watch {
@@ -742,4 +748,85 @@ impl<'a> Hist<'a> {
 /// Human-readable rendering of a history (for replay files).
 pub fn render_events(events: &[Ev]) -> Vec<String> {
     events.iter().map(|e| format!("{:?}", e)).collect()
+}
+
+/// Shapes worth reaching often: late requester through paths of different length, aggregate
+/// mixing a build side and a service side below a build, service behind nested aggregates,
+/// producer chain. `sel` >= 51 means "no template" (4 cases in 5).
+pub fn template_graph(sel: u8, raw: &RawGraph) -> Option<Graph> {
+    if sel >= 51 {
+        return None;
+    }
+    let t = |kind: Kind, deps: Vec<usize>, outdeps: Vec<usize>| GT {
+        proj: 0,
+        kind,
+        deps,
+        outdeps,
+    };
+    let mut targets = match sel % 6 {
+        0 => vec![
+            // T(4) -> G(3) -> {B(2), S(1) -> D(0)}
+            t(Kind::Build, vec![], vec![]),
+            t(Kind::Service, vec![0], vec![]),
+            t(Kind::Build, vec![], vec![]),
+            t(Kind::Aggregate, vec![2, 1], vec![]),
+            t(Kind::Build, vec![3], vec![]),
+        ],
+        1 => vec![
+            // top(3) -> {base(0), hop2(2) -> hop1(1) -> base}
+            t(Kind::Build, vec![], vec![]),
+            t(Kind::Aggregate, vec![0], vec![]),
+            t(Kind::Aggregate, vec![1], vec![]),
+            t(Kind::Build, vec![0, 2], vec![]),
+        ],
+        2 => vec![
+            // service behind nested aggregates next to a build
+            t(Kind::Service, vec![], vec![]),
+            t(Kind::Aggregate, vec![0], vec![]),
+            t(Kind::Build, vec![], vec![]),
+            t(Kind::Aggregate, vec![1, 2], vec![]),
+        ],
+        3 => vec![
+            // producer chain with a shared producer
+            t(Kind::Build, vec![], vec![]),
+            t(Kind::Build, vec![], vec![0]),
+            t(Kind::Build, vec![0], vec![1]),
+            t(Kind::Service, vec![2], vec![0]),
+        ],
+        4 => vec![
+            // two services, one depending on the other, under an aggregate with a build
+            t(Kind::Build, vec![], vec![]),
+            t(Kind::Service, vec![0], vec![]),
+            t(Kind::Service, vec![1], vec![]),
+            t(Kind::Aggregate, vec![2, 0], vec![]),
+        ],
+        _ => vec![
+            // wide fan-in on one target through aggregates of different depth
+            t(Kind::Build, vec![], vec![]),
+            t(Kind::Aggregate, vec![0], vec![]),
+            t(Kind::Aggregate, vec![0, 1], vec![]),
+            t(Kind::Build, vec![1], vec![0]),
+            t(Kind::Aggregate, vec![2, 3], vec![]),
+        ],
+    };
+    // a few random extra targets on top (they may depend on the template)
+    let extra = build_graph(raw);
+    let base = targets.len();
+    for (k, e) in extra.targets.iter().enumerate().take(3) {
+        let mut deps: Vec<usize> = e.deps.iter().map(|&d| if d < k { base + d } else { d % base }).collect();
+        deps.push(base - 1 - (k % base));
+        deps.sort();
+        deps.dedup();
+        targets.push(GT {
+            proj: 0,
+            kind: e.kind,
+            deps,
+            outdeps: vec![],
+        });
+    }
+    Some(Graph {
+        root_named: raw.root_named,
+        nproj: 1,
+        targets,
+    })
 }
